@@ -43,14 +43,27 @@ def run_property(prop: str, tier: str, repo: str, only=None, quiet=False) -> int
       # are discharged for the tree; if no view is clean the verdict of the
       # tree as written is reported.
       named = sorted({o.construct.split(':')[0] for o in report.unlisted(rs)})
-      for expand in ([named] if named and err is None else []) + [True]:
+      views = []
+      if named and err is None:
+        views.append({'helpers': named})
+      views += [{'helpers': True},
+                {'helpers': True, 'temps': True, 'loops': True},
+                {'temps': True, 'loops': True},
+                {'helpers': True, 'temps': True},
+                {'helpers': True, 'loops': True}]
+      seen_views = set()
+      for expand in views:
         ctx2, rs2, err2 = analyse(expand)
-        if not ctx2.p.inlined:
+        sig = tuple(ctx2.p.inlined)
+        if not sig or sig in seen_views:
           continue
+        seen_views.add(sig)
         if clean(rs2, err2):
           ctx, rs, err = ctx2, rs2, None
-          view = 'helpers expanded: ' + ', '.join(sorted(
-              {s_.split(' ')[-1] for s_ in ctx2.p.inlined}))
+          what = sorted({s_.split(' ')[-1] for s_ in ctx2.p.inlined
+                         if '<' in s_}) + [s_ for s_ in ctx2.p.inlined
+                                           if '<' not in s_]
+          view = 'expanded: ' + ', '.join(what)
           break
     if err is not None:
       raise err
@@ -64,7 +77,7 @@ def run_property(prop: str, tier: str, repo: str, only=None, quiet=False) -> int
     analysed = ctx.analysed_summary(funcs)
     analysed['view'] = view
     if view != 'as written' and not quiet:
-      print(f'note: {prop} decided on the view with {view}')
+      print(f'note: {prop} decided on a second view of the tree ({view})')
     if tier == 'thorough' and only is None:
       from fdlstatic import thorough
       analysed['thorough'] = thorough.run(ctx, rs, prop, repo, seed)
